@@ -20,6 +20,7 @@ from hypothesis import strategies as st
 
 from pbt import charsets as cs
 from pbt import dsl, findings, pat, treecheck
+from pbt import fresh as fresh_mod
 from pbt.common import Violation, case_hash, run_hypothesis
 
 ID = 'C20'
@@ -28,7 +29,7 @@ RULE = ('Hypothesis: programs of 3-14 steps over a bundle that starts with 2-4 l
         'get_compiled_pattern(True|False), matching calls, class union/subtraction/negation of class members. After every step all '
         'snapshots are compared and the result is compared with a rebuild from fresh leaves; afterwards each program is replayed in '
         'fresh interpreters under 2 (quick) / 4 (thorough) other hash seeds per shard (16/64 shards, each with its own base seed) '
-        'and fingerprints compared. Non-trivial = some member is used as an operand >= 2 times and at least once after '
+        'and fingerprints compared. A sixth of the programs rebuild their reference in freshly imported modules (no process history at all); the meta shards run sequences of prebuilt-pattern constructor calls (also with list arguments that are reused and mutated between calls) and compare every result with the same call in freshly imported modules. Non-trivial = some member is used as an operand >= 2 times and at least once after '
         'compile()/matching. Distinct = distinct serialised program.')
 ASSUMPTIONS = ['semantic fingerprint = exception type, group structure and finditer observations on probe texts, plus membership of '
                '~220 probe characters for class results (sampled, not the whole range - C06/C07 scan the whole range)',
@@ -63,8 +64,7 @@ def fingerprint(p, texts):
     except (re.error, RecursionError, OverflowError) as e:
         return ['uncompilable']
     fp = [rx.groups, sorted(rx.groupindex.items()), [dsl.observe(rx, t) for t in texts]]
-    import pregex.core.classes as cl
-    if isinstance(p, cl.Any.__mro__[1]):
+    if hasattr(p, '_get_verbose_pattern'):
         fp.append(''.join('1' if rx.fullmatch(c) else '0' for c in PROBE_CHARS))
     return fp
 
@@ -240,10 +240,25 @@ def fresh_check(res, exc, ast, texts, check, case, step, desc, fps):
     if not check:
         return
     try:
-        fresh = dsl.build(ast)
-        fexc = None
+        if case.get('deep'):
+            # rebuild in freshly imported modules: no class-level state of this process can leak into the reference
+            with fresh_mod.state():
+                try:
+                    fresh = dsl.build(ast)
+                    fexc = None
+                    fresh_fp = fingerprint(fresh, texts)
+                except Exception as e:  # noqa: BLE001
+                    if type(e).__name__ == 'CaseTimeout':
+                        raise
+                    if type(e).__module__ != 'pregex.core.exceptions':
+                        return
+                    fresh, fexc, fresh_fp = None, type(e).__name__, None
+        else:
+            fresh = dsl.build(ast)
+            fexc = None
+            fresh_fp = fingerprint(fresh, texts)
     except treecheck.documented_exceptions() as e:
-        fresh, fexc = None, type(e).__name__
+        fresh, fexc, fresh_fp = None, type(e).__name__, None
     except Exception as e:  # noqa: BLE001
         if type(e).__name__ == 'CaseTimeout':
             raise
@@ -251,7 +266,7 @@ def fresh_check(res, exc, ast, texts, check, case, step, desc, fps):
     if exc != fexc:
         raise Violation('history_dependent_outcome', case, f'step {step} ({desc}): with shared operands -> {exc or str(res)!r}; rebuilt from fresh '
                         f'leaves {dsl.render(ast)} -> {fexc or str(fresh)!r}')
-    if res is not None and fingerprint(res, texts) != fingerprint(fresh, texts):
+    if res is not None and fingerprint(res, texts) != fresh_fp:
         raise Violation('history_dependent_value', case, f'step {step} ({desc}): shared-operand result {str(res)!r} differs from fresh rebuild '
                         f'{str(fresh)!r} of {dsl.render(ast)}')
 
@@ -271,7 +286,129 @@ def replay_cross_process(case, ctx):
         raise Violation('hash_seed_dependent', case, f'different results under PYTHONHASHSEED={case["hash_seeds"]}: {str(diff)[:600]}')
 
 
+# ---------------------------------------------------------------------------------------------------------
+# meta mode: sequences of prebuilt-pattern constructor calls; every result must equal the same call evaluated in
+# freshly imported modules (no history), including when list arguments are reused and mutated between calls
+# ---------------------------------------------------------------------------------------------------------
+def _decode_arg(v, slots, alias):
+    if isinstance(v, list) and len(v) == 2 and v[0] == 'slot':
+        lst = slots[v[1] % len(slots)]
+        return lst if alias else list(lst)
+    return v
+
+
+def check_meta(case, ctx):
+    """Forward pass in the long-lived modules (which have seen every earlier case of this worker), with list arguments
+    aliased and mutated as the program says; reference pass in freshly imported modules - per call (thorough) or per
+    case with the calls in REVERSE order (quick; a result that depends on the order of earlier calls differs) - with
+    private copies of the list arguments as they were at the time of the call."""
+    slots = [list(x) for x in case['slots']]
+    es_hist = fresh_mod.essentials()
+    calls = []         # (step, cls, concrete args, concrete kwargs, hist result)
+
+    def run(es, cls, a, kw):
+        try:
+            return ('ok', str(getattr(es, cls)(*a, **kw)))
+        except Exception as e:  # noqa: BLE001
+            if type(e).__name__ == 'CaseTimeout':
+                raise
+            return ('exc', type(e).__name__)
+    for step, st_ in enumerate(case['steps']):
+        if st_[0] == 'mut':
+            lst = slots[st_[1] % len(slots)]
+            if st_[2] == 'append':
+                lst.append(st_[3])
+            elif st_[2] == 'pop' and len(lst) > 1:
+                lst.pop()
+            elif st_[2] == 'set0' and lst:
+                lst[0] = st_[3]
+            continue
+        _, cls, args, kwargs = st_
+        a_alias = [_decode_arg(x, slots, True) for x in args]
+        kw_alias = {k: _decode_arg(x, slots, True) for k, x in kwargs.items()}
+        a_copy = [_decode_arg(x, slots, False) for x in args]
+        kw_copy = {k: _decode_arg(x, slots, False) for k, x in kwargs.items()}
+        calls.append((step, cls, a_copy, kw_copy, run(es_hist, cls, a_alias, kw_alias)))
+    per_call = case.get('fresh_per', 'call') == 'call'
+    refs = {}
+    if per_call:
+        for (step, cls, a, kw, _) in calls:
+            with fresh_mod.state():
+                refs[step] = run(fresh_mod.essentials(), cls, a, kw)
+    else:
+        with fresh_mod.state():
+            es = fresh_mod.essentials()
+            for (step, cls, a, kw, _) in reversed(calls):
+                refs[step] = run(es, cls, a, kw)
+    for (step, cls, a, kw, hist) in calls:
+        if hist != refs[step]:
+            what = f"{cls}({', '.join([repr(x) for x in a] + [f'{k}={v!r}' for k, v in kw.items()])})"
+            v = Violation('history_dependent_meta', case, f'step {step}: {what} gives {hist[1][:160]!r} in this process (after the earlier steps and '
+                          f'cases, list arguments reused) but {refs[step][1][:160]!r} in freshly imported modules '
+                          f'({"one import per call" if per_call else "calls in reverse order"})')
+            if not findings.classify(ID, v.kind, case):
+                raise v
+    ctx.count('meta_calls', len(calls))
+    ctx.case(case, len(calls) >= 2, sample={'steps': [x[:2] for x in case['steps']][:8]} if len(calls) >= 2 else None)
+
+
+NUMS = [0, 1, 2, 3, 10, 11, 12, 13, 23, 32, 99, 100, 101, 123, 232, 255, 256, 999, 1000, 2147483647]
+# argument tuples that collide under lossy keys (digits concatenated without separator, str() of different types ...):
+# every value is written with the digits 1-3 only, so that (1, 232) / (12, 32) / (123, 2) read the same when glued together
+SMALLS = [1, 2, 3, 11, 12, 13, 21, 22, 23, 31, 32, 33, 111, 112, 121, 122, 123, 131, 132, 211, 212, 213, 221, 231, 232, 312, 321]
+BASES = [2, 3, 10, 11, 12, 13, 16, 16]
+
+
+def meta_strategy(fresh_per='call'):
+    from pbt.props.c19 import FORMATS
+    b = st.booleans()
+    num = st.one_of(st.sampled_from(NUMS), st.integers(0, 40))
+    small = st.one_of(st.sampled_from(SMALLS), st.sampled_from(SMALLS), st.integers(0, 6))
+    osmall = st.one_of(st.none(), small)
+
+    def kw(**fields):
+        # every keyword is optional: defaults must behave like the explicit default value
+        return st.fixed_dictionaries({}, optional=fields)
+    rng_args = st.tuples(num, num).map(lambda t: [min(t), max(t)])
+    calls = st.one_of(
+        st.tuples(st.just('Numeral'), st.just([]), kw(base=st.sampled_from(BASES), n_min=small, n_max=osmall, is_extensible=b)),
+        st.tuples(st.just('Numeral'), st.tuples(st.sampled_from(BASES), small, osmall).map(lambda t: [t[0], min(t[1], t[2]) if t[2] is not None else t[1], max(t[1], t[2]) if t[2] is not None else None]), kw(is_extensible=b)),
+        st.tuples(st.sampled_from(['Integer', 'PositiveInteger', 'NegativeInteger', 'UnsignedInteger']), st.one_of(st.just([]), rng_args), kw(is_extensible=b)),
+        st.tuples(st.just('Integer'), rng_args, kw(include_sign=b, is_extensible=b)),
+        st.tuples(st.sampled_from(['Decimal', 'PositiveDecimal', 'NegativeDecimal', 'UnsignedDecimal']), st.one_of(st.just([]), rng_args),
+                  kw(min_decimal=st.integers(1, 12), max_decimal=st.one_of(st.none(), st.integers(12, 40)), is_extensible=b)),
+        st.tuples(st.just('Word'), st.just([]), kw(min_chars=st.integers(1, 12), max_chars=st.one_of(st.none(), st.integers(12, 130)), is_global=b, is_extensible=b)),
+        st.tuples(st.sampled_from(['WordContains', 'WordStartsWith', 'WordEndsWith']),
+                  st.one_of(st.just([['slot', 1]]), st.sampled_from(['a', 'ab', 'é', 'x.y']).map(lambda x: [x])), kw(is_global=b, is_extensible=b)),
+        st.tuples(st.just('Date'), st.one_of(st.just([]), st.just([['slot', 0]]), st.just([['slot', 0]]), st.sampled_from(FORMATS).map(lambda f: [f])), kw(is_extensible=b)),
+        st.tuples(st.sampled_from(['IPv4', 'IPv6', 'IPv6']), st.just([]), kw(is_extensible=b)),
+        st.tuples(st.sampled_from(['Text', 'Whitespace', 'NonWhitespace']), st.just([]), kw(is_optional=b)),
+        st.tuples(st.just('Email'), st.just([]), kw(capture_local_part=b, capture_domain=b, is_extensible=b)),
+        st.tuples(st.just('HttpUrl'), st.just([]), kw(capture_domain=b, is_extensible=b)),
+    ).map(lambda t: ['call', t[0], t[1], t[2]])
+    muts = st.one_of(
+        st.tuples(st.just('mut'), st.just(0), st.sampled_from(['append', 'pop', 'set0']), st.one_of(st.sampled_from(FORMATS), st.sampled_from(['dd.mm.yyyy', 'yyyy/dd/mm']))).map(list),
+        st.tuples(st.just('mut'), st.just(1), st.sampled_from(['append', 'pop', 'set0']), st.sampled_from(['a', 'b', 'ab', 'é', 'x', 'yz'])).map(list),
+    )
+    # the same list object handed to the same constructor twice, mutated in between (stale results keyed on the caller's object)
+    date_alias = st.tuples(b, st.sampled_from(['append', 'pop', 'set0']), st.one_of(st.sampled_from(FORMATS), st.just('dd.mm.yyyy'))).map(
+        lambda t: [['call', 'Date', [['slot', 0]], {'is_extensible': t[0]}], ['mut', 0, t[1], t[2]], ['call', 'Date', [['slot', 0]], {'is_extensible': t[0]}]])
+    word_alias = st.tuples(st.sampled_from(['WordContains', 'WordStartsWith', 'WordEndsWith']), st.sampled_from(['append', 'pop', 'set0']),
+                           st.sampled_from(['x', 'yz', 'é'])).map(
+        lambda t: [['call', t[0], [['slot', 1]], {}], ['mut', 1, t[1], t[2]], ['call', t[0], [['slot', 1]], {}]])
+    plain = st.lists(st.one_of(calls, calls, calls, muts), min_size=2, max_size=7)
+    steps = st.one_of(plain, plain, st.tuples(plain, st.one_of(date_alias, word_alias)).map(lambda t: t[0][:2] + t[1] + t[0][2:]))
+    return st.fixed_dictionaries({
+        'mode': st.just('meta'),
+        'fresh_per': st.just(fresh_per),
+        'slots': st.tuples(st.lists(st.sampled_from(FORMATS), min_size=1, max_size=3), st.lists(st.sampled_from(['a', 'b', 'ab', 'c']), min_size=1, max_size=3)).map(list),
+        'steps': steps,
+    })
+
+
 def check_case(case, ctx):
+    if case.get('mode') == 'meta':
+        return check_meta(case, ctx)
     if 'program' in case:
         replay_cross_process(case, ctx)
         check_case(case['program'], ctx)
@@ -302,7 +439,11 @@ def leaf_strategy():
     feats = [f for f in dsl.ALL_FEATURES if f not in ('strarg',)]
     small = dsl.tree_strategy(['cls', 'tok', 'empty', 'wb', 'meta', 'uni', 'ws', 'anchor', 'q', 'alt'], max_leaves=2)
     clsleaf = st.one_of(dsl.simple_class_strategy(feats))
-    return st.one_of(small, small, clsleaf)
+    # classes that print alike but are different values: the global word class vs. a union that merely prints as \w, and their partners
+    wordish = st.sampled_from([['cls', ['word', True]], ['cls', ['word', False]], ['cls', ['butword', True]],
+                               ['cls', ['or', ['word', True], ['named', 'AnyDigit']]], ['cls', ['or', ['word', True], ['c', '_']]],
+                               ['cls', ['from', [['c', '-']]]], ['cls', ['from', [['c', 'é']]]], ['cls', ['named', 'AnyDigit']]])
+    return st.one_of(small, small, clsleaf, wordish)
 
 
 def op_strategy():
@@ -337,16 +478,23 @@ def strategy():
         'leaves': st.lists(leaf_strategy(), min_size=2, max_size=4),
         'ops': st.one_of(st.lists(op_strategy(), min_size=3, max_size=14), st.lists(op_strategy(), min_size=3, max_size=14),
                          st.lists(op_strategy(), min_size=15, max_size=40)),
-        'texts': st.lists(st.text(st.sampled_from(list('ab1 \n-.xAZ_9é(')), max_size=8), min_size=3, max_size=6).map(lambda xs: xs + ['', 'a']),
+        'texts': st.lists(st.text(st.sampled_from(list('ab1 \n-.xAZ_9é(')), max_size=8), min_size=3, max_size=6).map(lambda xs: xs + ['', 'a', 'é', 'Б1_', '-']),
+        'deep': st.sampled_from([False, False, False, True]),
     })
 
 
 def shards(tier):
-    n = 16 if tier == 'quick' else 64
-    return [{'examples': 500 if tier == 'quick' else 3000, 'replay_seeds': 2 if tier == 'quick' else 4} for _ in range(n)]
+    n = 12 if tier == 'quick' else 52
+    out = [{'examples': 350 if tier == 'quick' else 3000, 'replay_seeds': 2 if tier == 'quick' else 4} for _ in range(n)]
+    out += [{'mode': 'meta', 'fresh_per': 'case' if tier == 'quick' else ('call' if i % 2 else 'case'),
+             'examples': 700 if tier == 'quick' else 2500} for i in range(4 if tier == 'quick' else 12)]
+    return out
 
 
 def run_shard(spec, ctx):
+    if spec.get('mode') == 'meta':
+        run_hypothesis(ctx, meta_strategy(spec.get('fresh_per', 'call')), check_case, spec['examples'], label='meta')
+        return
     ctx.programs = {}
     ctx.max_programs = 400 if spec['examples'] <= 300 else 1500
     run_hypothesis(ctx, strategy(), check_case, spec['examples'])
